@@ -876,7 +876,26 @@ use proptest::test_runner::TestRng;
 
 fn tree_from_bytes<P: Property>(strategy: &BoxedStrategy<P::Case>, data: &[u8]) -> Option<Box<dyn ValueTree<Value = P::Case>>> {
     let cfg = Config { failure_persistence: None, max_local_rejects: 256, max_global_rejects: 256, ..Config::default() };
-    let rng = TestRng::from_seed(RngAlgorithm::PassThrough, data);
+    // proptest's pass-through stream turns into zeros once the input is used up, and rand's rejection sampling of an
+    // integer range never accepts an all-zero word (the loop in `pick_weighted` spins for ever), so the input is
+    // followed by a fixed pseudo-random tail: short inputs decode to "prefix chosen by the fuzzer, rest constant"
+    static TAIL: std::sync::OnceLock<Vec<u8>> = std::sync::OnceLock::new();
+    let tail = TAIL.get_or_init(|| {
+        let mut x = 0x9E3779B97F4A7C15u64;
+        let mut v = Vec::with_capacity(1 << 18);
+        while v.len() < (1 << 18) {
+            x = x.wrapping_add(0x9E3779B97F4A7C15);
+            let mut z = x;
+            z = (z ^ (z >> 30)).wrapping_mul(0xBF58476D1CE4E5B9);
+            z = (z ^ (z >> 27)).wrapping_mul(0x94D049BB133111EB);
+            v.extend_from_slice(&(z ^ (z >> 31)).to_le_bytes());
+        }
+        v
+    });
+    let mut stream = Vec::with_capacity(data.len() + tail.len());
+    stream.extend_from_slice(data);
+    stream.extend_from_slice(tail);
+    let rng = TestRng::from_seed(RngAlgorithm::PassThrough, &stream);
     let mut runner = TestRunner::new_with_rng(cfg, rng);
     strategy.new_tree(&mut runner).ok()
 }
